@@ -1227,7 +1227,7 @@ func (e *pegEnv) ibcSend(p *pegPair) {
 			recvStr, pk.badRecv = "not-an-address", true
 		}
 		th, ts := clienttypes.NewHeight(1, 10_000_000), uint64(0)
-		if e.rng.Intn(3) == 0 {
+		if e.rng.Intn(3) == 0 || (e.malicious(p) && e.rng.Intn(2) == 0) {
 			th, ts, pk.timeout = clienttypes.ZeroHeight(), uint64(n.Time.Add(3*time.Second).UnixNano()), true
 		}
 		e.logOp("%s: IBC MsgTransfer %s %s -> %s on %s (timeout=%v)", p.kind, x, e.names[a.Eth], recvStr, ch, pk.timeout)
@@ -1400,7 +1400,12 @@ func (e *pegEnv) roundTrip() bool {
 			return true
 		}
 		if pk := stage(q, false, false); pk != nil {
-			e.ibcRecv(pk)
+			// a packet whose deadline has passed is timed out (refund + conversion back) half the time
+			if pk.timeout && uint64(e.n.Time.UnixNano()) >= pk.pkt.TimeoutTimestamp && e.rng.Intn(2) == 0 {
+				e.ibcTimeout(pk)
+			} else {
+				e.ibcRecv(pk)
+			}
 			return true
 		}
 		if pk := stage(q, false, true); pk != nil && e.rng.Intn(2) == 0 {
